@@ -190,6 +190,35 @@ def run(unit, em):
             if short == a:
                 em.anchor(fn, a)
         for c in fn.calls():
+            if c['k'] == 'CXXMemberCallExpr' and method_name(c) == 'buildIndex' and len(c.get('args', [])) == 2:
+                a, b = strip(c['args'][0]), strip(c['args'][1])
+                if a is not None and b is not None and a['k'] == b['k'] == 'DeclRefExpr':
+                    em.info(c, 'ORIENT-build', '%s;%s;%s' % (fn.q, a['n'], b['n']))
+                    # where do the two indices go?
+                    for c2 in fn.calls():
+                        if c2 is c or not c2.get('inrepo'):
+                            continue
+                        pos = {}
+                        for i, x in enumerate(c2.get('args', [])):
+                            sx = strip(x)
+                            if sx is not None and sx['k'] == 'DeclRefExpr' and sx.get('d') in (a['d'], b['d']):
+                                pos['a' if sx['d'] == a['d'] else 'b'] = i
+                        if len(pos) == 2:
+                            em.info(c2, 'ORIENT-pass', '%s;%s;%d;%d' % (fn.q, c2.get('q'), pos['a'], pos['b']))
+        # relays: a function handing two or more of its own parameters on to an in-repo callee
+        pidx = {p_['d']: i for i, p_ in enumerate(fn.params)}
+        if 'Inclusion' in fn.q or 'expand' in fn.q:
+            for c2 in fn.calls():
+                if not c2.get('inrepo') or c2['k'] != 'CallExpr' and c2['k'] != 'CXXMemberCallExpr':
+                    continue
+                m = {}
+                for i, x in enumerate(c2.get('args', [])):
+                    sx = strip(x)
+                    if sx is not None and sx['k'] == 'DeclRefExpr' and sx.get('d') in pidx:
+                        m[pidx[sx['d']]] = i
+                if len(m) >= 2:
+                    em.info(c2, 'ORIENT-relay', '%s;%s;%s' % (fn.q, c2.get('q'), ','.join('%d:%d' % kv for kv in sorted(m.items()))))
+        for c in fn.calls():
             ac = ac_class(c.get('q'))
             if not ac or c['k'] != 'CXXMemberCallExpr':
                 continue
@@ -283,6 +312,18 @@ def run(unit, em):
             if len(cs) > 1:
                 s = next(x for x in sites if x['cmp'] == cm)
                 em.violation(s['node'], 'scope pairing ' + str(cm), 'comparator %s is paired with different candidate indices %s in one scope' % (cm, sorted(map(str, cs))), 'bijection')
+        # orientation facts for one-component antichains (always covering: contains(index), refine(inverse))
+        if scope[0] == 'fn':
+            fn0 = sites[0]['fn']
+            for s in sites:
+                if s['cls'] == 'Antichain1C' and s['cand'][0] == 'idx' and len(s['cand']) == 3 and s['cand'][1] in ('param', 'local'):
+                    kind, nm = s['cand'][1], s['cand'][2]
+                    if kind == 'param':
+                        names = [p_['n'] for p_ in fn0.params]
+                        if nm in names:
+                            em.info(s['node'], 'ORIENT-callee', '%s;%s;%d' % (fn0.q, s['op'], names.index(nm)))
+                    else:
+                        em.info(s['node'], 'ORIENT-local', '%s;%s;%s' % (fn0.q, s['op'], nm))
         # Antichain1C objects: contains-index and refine-index must not coincide across the scope
         one_c = {s['cand'] for s in sites if s['cls'] == 'Antichain1C' and s['op'] == 'contains' and s['cand'][0] == 'idx'}
         one_r = {s['cand'] for s in sites if s['cls'] == 'Antichain1C' and s['op'] == 'refine' and s['cand'][0] == 'idx'}
@@ -290,3 +331,82 @@ def run(unit, em):
         if one_c & one_r:
             s = next(x for x in sites if x['cls'] == 'Antichain1C')
             em.violation(s['node'], 'scope pairing Antichain1C', 'the same index %s feeds both contains() and refine() of one-component antichains' % sorted(map(str, one_c & one_r)), 'bijection')
+
+
+def finalize(records, _):
+    """orientation: buildIndex(ind, inv) -> one-component antichains use ind for contains(), inv for refine()"""
+    R = [r for r in records if r['rule'] == RULE and r['kind'] == 'info']
+    out = []
+    builds = {}
+    for r in R:
+        if r['construct'] == 'ORIENT-build':
+            f, a, b = r['detail'].split(';')
+            builds[f] = (a, b, r)
+    seen = set()
+    # local uses
+    for r in R:
+        if r['construct'] != 'ORIENT-local':
+            continue
+        f, op, nm = r['detail'].split(';')
+        if f not in builds:
+            continue
+        a, b, br = builds[f]
+        want = a if op == 'contains' else b
+        key = (r['file'], r['line'], op)
+        if key in seen:
+            continue
+        seen.add(key)
+        x = dict(r)
+        x['obligation'] = 'orient'
+        x['construct'] = 'orientation of %s() index in %s' % (op, f.split('::')[-1])
+        if nm == want:
+            x.update(kind='ok', detail='%s() takes its candidates from %s, the %s output of buildIndex' % (op, nm, 'first' if op == 'contains' else 'second'))
+        elif nm in (a, b):
+            x.update(kind='violation', detail='%s() takes its candidates from %s, but buildIndex(%s, %s) makes %s the index %s() needs: the antichain test is applied with the inverse preorder' % (op, nm, a, b, want, op))
+        else:
+            continue
+        out.append(x)
+    # through a call
+    callee_sites = {}
+    for r in R:
+        if r['construct'] == 'ORIENT-callee':
+            f, op, idx = r['detail'].split(';')
+            callee_sites.setdefault(f, []).append((op, int(idx), r))
+    def same(f1, f2):
+        return (f1 or '').split('::')[-2:] == (f2 or '').split('::')[-2:] or ((f1 or '').split('::')[-1] == (f2 or '').split('::')[-1] and '::' not in (f1 or '') + (f2 or ''))
+    relays = []
+    for r in R:
+        if r['construct'] == 'ORIENT-relay':
+            f, g, mp = r['detail'].split(';')
+            relays.append((f, g, dict((int(a), int(b)) for a, b in (kv.split(':') for kv in mp.split(',')))))
+    passes = []
+    for r in R:
+        if r['construct'] == 'ORIENT-pass':
+            f, callee, ia, ib = r['detail'].split(';')
+            passes.append((r, f, callee, int(ia), int(ib)))
+    # one relay level
+    for (r, f, callee, ia, ib) in list(passes):
+        for (rf, rg, mp) in relays:
+            if same(rf, callee) and ia in mp and ib in mp:
+                passes.append((r, f + ' -> ' + rf.split('::')[-1], rg, mp[ia], mp[ib]))
+    for (r, f, callee, ia, ib) in passes:
+        for cf, lst in callee_sites.items():
+            if cf.split('::')[-1] != (callee or '').split('::')[-1]:
+                continue
+            for op, idx, sr in lst:
+                want = ia if op == 'contains' else ib
+                key = (r['file'], r['line'], sr['file'], sr['line'], op)
+                if key in seen:
+                    continue
+                seen.add(key)
+                x = dict(r)
+                x['obligation'] = 'orient'
+                x['construct'] = 'orientation: %s -> %s %s() at %s:%d' % (f.split('::')[-1], cf.split('::')[-1], op, sr['file'], sr['line'])
+                if idx == want:
+                    x.update(kind='ok', detail='argument %d (the %s output of buildIndex) feeds %s()' % (idx, 'first' if op == 'contains' else 'second', op))
+                elif idx in (ia, ib):
+                    x.update(kind='violation', detail='the %s output of buildIndex is passed as argument %d, which the callee uses for %s(): index and inverse index are exchanged' % ('second' if op == 'contains' else 'first', idx, op))
+                else:
+                    continue
+                out.append(x)
+    return out
